@@ -185,6 +185,8 @@ Elements ==
 \cup {El("arg-of:-x", <<<<"-x">>, <<"c">>>>)}
 \cup {El("flag", <<<<f>>>>) : f \in {"-O2", "-Wall", "-g", "-pthread", "-fno-common", "-march=native"}}
 
+\* an element whose second word only looks like an option (the argument of -o, -MF, -MT, -include)
+IsDecoy(e) == Len(e.ws) = 2 /\ e.ws[1][1] \in {"-o", "-MF", "-MT", "-include"} /\ e.ws[2] # <<"out.o">>
 Words(els) == FlattenSeq([i \in DOMAIN els |-> els[i].ws])
 \* a command line a build system would emit: no macro defined twice or defined and undefined, no directory twice,
 \* one -std at most (the decoys do not count: they are arguments)
@@ -230,7 +232,11 @@ ASSUME Mode = "gen" =>
       n == Len(es)
       s1 == TLCEval(SetToSeq({<<e>> : e \in Elements}))
       s2 == TLCEval(IF p.pairs THEN SetToSeq({v \in {<<a, b>> : a \in Elements, b \in Elements} : WellFormed(v)}) ELSE <<>>)
-      s3 == TLCEval(SetToSeq({v \in {[m \in DOMAIN p.sample[k] |-> es[(p.sample[k][m] % n) + 1]] : k \in DOMAIN p.sample} : WellFormed(v)}
+      \* most sampled triples avoid the decoy arguments, so that a deviation of theirs is not attributed to a decoy
+      cs == TLCEval(SetToSeq({e \in Elements : ~IsDecoy(e)}))
+      s3 == TLCEval(SetToSeq({v \in {[m \in DOMAIN p.sample[k] |-> es[(p.sample[k][m] % n) + 1]] : k \in DOMAIN p.sample}
+                                      \cup {[m \in DOMAIN p.sample_clean[k] |-> cs[(p.sample_clean[k][m] % Len(cs)) + 1]] : k \in DOMAIN p.sample_clean}
+                                    : WellFormed(v)}
                              \ (ToSet(s1) \cup ToSet(s2))))
       all == TLCEval(s1 \o s2 \o s3)
       mine == TLCEval(SelectSeq([i \in DOMAIN all |-> i], LAMBDA i : i % p.nshards = p.shard))
